@@ -1,7 +1,7 @@
 SPECIFICATION Spec
 CONSTANTS
-  Peers = {1, 2}
-  Blocks = {2, 3, 4, 5, 6}
+  Peers = {1}
+  Blocks = {2, 4, 6, 8}
   W = 2
   Timeout = 2
   PruneWindow = 20
@@ -15,19 +15,19 @@ CONSTANTS
   Low0 = 1
   GH = TRUE
   Depth = 0
-  Trees = {}
+  Trees <- TreesLine
 INVARIANT TreeOK
 INVARIANT StoreOK
 INVARIANT PeersOK
 INVARIANT InflightOK
-INVARIANT RequestSafe
-INVARIANT RequestLive
-INVARIANT LastCommonOK
 INVARIANT IBOnePeerPerBlock
 INVARIANT IBListedIsInflight
 INVARIANT IBInflightIsListed
 INVARIANT IBStaleOK
 INVARIANT IBTraceLive
+PROPERTY RequestSafeMC
+PROPERTY RequestLiveMC
+PROPERTY LastCommonMC
 PROPERTY NeverTwiceMC
 PROPERTY OnlyReleasedByMC
 VIEW AgeView
